@@ -212,6 +212,42 @@ func checkC12(c *Check) {
 			}
 		}
 	}
+	// the time an operation stamps into a session (created, last used) is read inside the critical section: a clock
+	// value taken before the lock can be older than the stamp of an operation that completed in between, last-used moves
+	// backwards and the session idles out early
+	nStamp := 0
+	for _, fn := range all {
+		for _, b := range fn.Blocks {
+			for _, ins := range b.Instrs {
+				st, ok := ins.(*ssa.Store)
+				if !ok {
+					continue
+				}
+				fa, isF := st.Addr.(*ssa.FieldAddr)
+				if !isF || sr.SessionType == nil || !types.Identical(derefType(fa.X.Type()), sr.SessionType) {
+					continue
+				}
+				f := fieldOf(fa.X.Type(), fa.Field)
+				if f == nil || (f.Name() != "accessed" && f.Name() != "added") {
+					continue
+				}
+				for _, l := range LeavesInl(st.Val, leafOpts{noConcat: true}, 2, func(f *ssa.Function) bool { return pkgPathOf(f) != pkgOIDC || recvNamed(f) != sr.Mem }) {
+					nc, _, isC := asCall(resolveCell(stripConv(l)))
+					if !isC || !isCallTo(nc, pkgOIDC+".Clock.Now") {
+						continue
+					}
+					if !la.fns[nc.Parent()] {
+						continue
+					}
+					nStamp++
+					held := lockFor(la.At(nc), false)[mu]
+					c.Obl(held, "C12.R1", "stamp-clock-read-under-lock/"+fnKey(nc.Parent())+"/"+f.Name(), P.Pos(nc.Pos()), "the clock value stamped into the session is read under "+mu,
+						"the clock value that "+fnKey(fn)+" stamps into session."+f.Name()+" is read in "+fnKey(nc.Parent())+" without holding "+mu+": an operation that completes in between leaves a later stamp, which this one then overwrites with an older time")
+				}
+			}
+		}
+	}
+	c.Obl(nStamp >= 2, "C12.R1", "stamp-clock-reads", "-", fmt.Sprintf("%d clock reads feed session stamps", nStamp), "no clock read feeding a session stamp found (anchor lost)")
 	c.Obl(nAcc >= 12, "C12.R1", "locked/count", "-", fmt.Sprintf("%d accesses to the session map and session fields", nAcc), fmt.Sprintf("only %d accesses found (floor 12)", nAcc))
 	for _, fn := range all {
 		for _, b := range fn.Blocks {
